@@ -24,6 +24,7 @@ def family():
     yield from F.fam_clone_markers()
     yield from F.fam_clones_static_and_reared()
     yield from F.fam_clone_guards()
+    yield from F.fam_clone_shapes()
 
 
 def rel_paths(prog):
